@@ -526,7 +526,9 @@ func parentMain(spec *Spec, tier string, seed int64) int {
 					p.Notes = append(p.Notes, r.Notes...)
 				}
 				mu.Unlock()
-				if haveRes && r.Done && werr == nil {
+				if haveRes && r.Done {
+					// (a race-detector build exits with status 66 after a completed run that
+					// produced reports; the reports are collected from the log files)
 					return
 				}
 				if haveRes && r.ResumeFrom > 0 { // hang: already recorded by the worker
